@@ -1,15 +1,664 @@
-//! Input generators of the C18 harness: fixed boundary programs and seeded random programs.
+//! Input generators of the C18 harness: fixed boundary programs, seeded random straight-line
+//! programs over all 17 operations and 6 value types, and ill-formed variants.
+use ff::Field;
+use group::{Group, GroupEncoding};
+use midnight_curves::{Fr as JubjubFr, JubjubSubgroup};
+use midnight_zkir::{Instruction, IrType, IrValue, Operation};
 use mzkh::Ctx;
+use num_bigint::{BigUint, RandBigInt};
+use num_traits::{One, Zero};
+use rand::{seq::SliceRandom, Rng};
+use rand_chacha::ChaCha8Rng;
 
-use crate::text::{parse_case_body, Case};
+use crate::text::{f_from_big, fr_from_big, hex_bytes, parse_case_body, Case, F};
 
+/// Hand-written boundary programs (regressions of repaired defects first).
 pub const FIXED: &[&str] = &[
-    // D7 regression: IntoBytes on a small BigUint pads
+    // D7: IntoBytes on a small BigUint pads
     "load.big.16;;x into_bytes.40;x;b publish;b; | x=u:12c",
+    // N2: Jubjub constants without any Load/FromBytes of a Jubjub type
+    "publish;Jubjub:GENERATOR; |",
+    "publish;JubjubScalar:FF,Jubjub:IDENTITY; |",
+    "mul;JubjubScalar:02,Jubjub:GENERATOR;p add;p,Jubjub:GENERATOR;q affine;q;u,v publish;u,v,q; |",
+    // N3: in-circuit-only type error with a Publish
+    "load.scalar;;s assert_eq;s,s; publish;s; | s=s:5",
+    "load.scalar;;s,t is_eq;s,t;b publish;b; | s=s:5 t=s:6",
+    // N4/N5/N6: ModExp boundary exponents and moduli
+    "load.big.8;;x,m mod_exp.3;x,m;r publish;r; | x=u:5 m=u:0",
+    "load.big.8;;x,m mod_exp.1;x,m;r publish;r; | x=u:5 m=u:3",
+    "load.big.8;;x,m mod_exp.0;x,m;r publish;r; | x=u:5 m=u:1",
+    "load.big.8;;x,m mod_exp.0;x,m;r publish;r; | x=u:5 m=u:0",
+    "load.big.8;;x,m mod_exp.1;x,m;r publish;r; | x=u:5 m=u:0",
+    "load.big.8;;x,m mod_exp.5;x,m;r publish;r; | x=u:5 m=u:7",
+    "load.big.200;;x,m mod_exp.65537;x,m;r publish;r; | x=u:123456789abcdef0123456789abcdef0123456789 m=u:fedcba9876543210fedcba9876543210fedcba987654321",
+    // N7 (known): Jubjub scalars from >= 32 bytes
+    "load.bytes.32;;b from_bytes.scalar;b;s publish;s; | b=y:ffffffffffffffffffffffffffffffffffffffffffffffffffffffffffffffff",
+    "load.bytes.32;;b from_bytes.scalar;b;s publish;s; | b=y:0500000000000000000000000000000000000000000000000000000000000000",
+    "load.bytes.32;;b from_bytes.scalar;b;s mul;s,Jubjub:GENERATOR;p publish;p; | b=y:ffffffffffffffffffffffffffffffffffffffffffffffffffffffffffffffff",
+    "load.bytes.31;;b from_bytes.scalar;b;s publish;s; | b=y:ffffffffffffffffffffffffffffffffffffffffffffffffffffffffffffff",
+    "load.bytes.4;;b from_bytes.scalar;b;s publish;s; | b=y:05000000",
+    "from_bytes.scalar;%;x publish;x; |",
+    // N8/N9: zero-width values
+    "load.big.0;;x publish;x; | x=u:0",
+    "load.bytes.0;;b publish;b; | b=y:",
+    "load.bytes.0;;b from_bytes.big.0;b;x publish;x; | b=y:",
+    "from_bytes.big.8;%;x mul;x,x;z publish;z; |",
+    "from_bytes.native;%;x publish;x; |",
+    "publish;%; |",
+    "load.bytes.0;;a,b is_eq;a,b;e sha256;a;h publish;e,h; | a=y: b=y:",
+    // N10: IntoBytes on Native, range and length
+    "load.native;;x into_bytes.1;x;b publish;b; | x=n:100",
+    "load.native;;x into_bytes.33;x;b publish;b; | x=n:100",
+    "load.native;;x into_bytes.32;x;b publish;b; | x=n:100",
+    "load.native;;x into_bytes.32;x;b publish;b; | x=n:73eda753299d7d483339d80809a1d80553bda402fffe5bfeffffffff00000000",
+    "load.native;;x into_bytes.0;x;b publish;b; | x=n:0",
+    "load.native;;x into_bytes.0;x;b publish;b; | x=n:1",
+    "load.native;;x into_bytes.31;x;b from_bytes.native;b;y assert_eq;x,y; | x=n:ffffffffffffffffffffffffffffffffffffffffffffffffffffffffffffff",
+    // N11: Jubjub constant outside the prime-order subgroup, other malformed constants
+    "publish;Jubjub:00000000fffffffffe5bfeff02a4bd5305d8a10908d83933487d9d2953a7ed73; |",
+    "publish;Jubjub:0xcb550cd538ea0cc1138480408e6eaab9b36c613f0dd3f7784fdb6eea837b13d7; |",
+    "publish;Native:73eda753299d7d483339d80809a1d80553bda402fffe5bfeffffffff00000001; |",
+    "publish;Native:73eda753299d7d483339d80809a1d80553bda402fffe5bfeffffffff00000000,Native:-0x01,Native:,Native:-; |",
+    "publish;JubjubScalar:0e7db4ea6533afa906673b0101343b00a6682093ccc81082d0970e5ed6f72cb7; |",
+    "publish;JubjubScalar:0e7db4ea6533afa906673b0101343b00a6682093ccc81082d0970e5ed6f72cb6; |",
+    "publish;a:b:c; |",
+    "publish;0xABC; |",
+    "publish;2; |",
+    "publish;BigUint:; |",
+    "publish;BigUint:0x0,BigUint:0,BigUint:ffffffffffffffffffffffff,BigUint:1000000000000000000000000; |",
+    // shadowing of constants by variables
+    "load.native;;1 publish;1; | 1=n:7",
+    "load.bool;;Native:05 publish;Native:05,Native:06; | Native:05=b:1",
+    // BigUint arithmetic shapes
+    "load.big.96;;x,y add;x,y;z publish;z; | x=u:ffffffffffffffffffffffff y=u:ffffffffffffffffffffffff",
+    "load.big.96;;x,y mul;x,y;z publish;z; | x=u:ffffffffffffffffffffffff y=u:ffffffffffffffffffffffff",
+    "load.big.97;;x,y mul;x,y;z sub;z,x;t publish;z,t; | x=u:1ffffffffffffffffffffffff y=u:1ffffffffffffffffffffffff",
+    "load.big.8;;x,y sub;x,y;z publish;z; | x=u:5 y=u:6",
+    "load.big.8;;x,y sub;x,y;z publish;z; | x=u:6 y=u:6",
+    "load.big.300;;x into_bytes.38;x;b from_bytes.big.304;b;y assert_eq;x,y; publish;y; | x=u:fffffffffffffffffffffffffffffffffffffffffffffffffffffffffffffffffffffffffff",
+    "load.big.300;;x into_bytes.37;x;b publish;b; | x=u:fffffffffffffffffffffffffffffffffffffffffffffffffffffffffffffffffffffffffff",
+    "load.big.16;;x publish;x; | x=u:10000",
+    "load.big.16;;x publish;x; | x=u:ffff",
+    // inner products
+    "load.native;;a,b,c,d inner_product;a,b,c,d;r publish;r; | a=n:2 b=n:3 c=n:5 d=n:7",
+    "load.big.64;;a,b,c,d inner_product;a,b,c,d;r publish;r; | a=u:2 b=u:3 c=u:5 d=u:ffffffffffffffff",
+    "load.scalar;;s,t load.point;;p,q inner_product;s,t,p,q;r publish;r; | s=s:2 t=s:3 p=p:3ea5c4673a121ca35ed37ee3b172f5ee04315c657fbe375f512dfea318d56fe5/57137b83ea6edb4f78f7d30d3f616cb3b9aa6e8e40808413c10cea38d50c55cb q=p:0/1",
+    "load.native;;a,b load.scalar;;s load.point;;p inner_product;a,s,b,p;r | a=n:2 b=n:3 s=s:5 p=p:0/1",
+    "load.scalar;;s load.native;;a load.point;;p inner_product;s,a,p,p;r | a=n:2 s=s:5 p=p:0/1",
+    // points
+    "load.point;;p into_bytes.32;p;b from_bytes.point;b;q assert_eq;p,q; neg;p;m add;p,m;z publish;z,b; | p=p:3ea5c4673a121ca35ed37ee3b172f5ee04315c657fbe375f512dfea318d56fe5/57137b83ea6edb4f78f7d30d3f616cb3b9aa6e8e40808413c10cea38d50c55cb",
+    "load.bytes.32;;b from_bytes.point;b;q publish;q; | b=y:0000000000000000000000000000000000000000000000000000000000000000",
+    "load.bytes.32;;b from_bytes.point;b;q publish;q; | b=y:0100000000000000000000000000000000000000000000000000000000000080",
+    "load.point;;p into_bytes.31;p;b | p=p:0/1",
+    // comparisons across types / lengths
+    "load.bytes.2;;a load.bytes.3;;b assert_ne;a,b; | a=y:0102 b=y:010203",
+    "load.bool;;a load.native;;b is_eq;a,b;c publish;c; | a=b:1 b=n:1",
+    // hashes
+    "load.bytes.3;;a sha256;a;h sha512;a;g publish;h,g; | a=y:616263",
+    "load.native;;a,b poseidon;a,b;h poseidon;h;g publish;h,g; | a=n:1 b=n:2",
+    "load.bool;;a poseidon;a;h | a=b:1",
+    "load.native;;a sha256;a;h | a=n:1",
+    // witness problems
+    "load.bool;;out | outt=b:1",
+    "load.bool;;out | out=n:1",
+    "load.bytes.2;;b | b=y:ff",
+    // wrong arity / duplicate names
+    "load.bool;; |",
+    "publish;x;y |",
+    "inner_product;a,b,c;r |",
+    "load.bool;;out,out | out=b:1",
+    "load.bool;;out load.bool;;out | out=b:1",
+    "load.bool;;a load.native;;a | a=b:1",
 ];
 
 pub fn fixed_cases() -> Vec<Case> {
     FIXED.iter().map(|s| parse_case_body(s).unwrap_or_else(|| panic!("bad fixed case {s}"))).collect()
 }
 
-pub fn generated(_ctx: &mut Ctx) {}
+#[derive(Clone, Copy, Debug, PartialEq)]
+enum Ty {
+    Bool,
+    Bytes(usize),
+    Native,
+    Big,
+    Point,
+    Scalar,
+}
+
+struct G<'a> {
+    rng: &'a mut ChaCha8Rng,
+    vars: Vec<(String, Ty)>,
+    prog: Vec<Instruction>,
+    wit: Vec<(String, IrValue)>,
+    next: usize,
+    wide: bool,
+}
+
+fn q_big() -> BigUint {
+    BigUint::parse_bytes(b"73eda753299d7d483339d80809a1d80553bda402fffe5bfeffffffff00000001", 16).unwrap()
+}
+fn r_big() -> BigUint {
+    BigUint::parse_bytes(b"0e7db4ea6533afa906673b0101343b00a6682093ccc81082d0970e5ed6f72cb7", 16).unwrap()
+}
+
+impl<'a> G<'a> {
+    fn fresh(&mut self) -> String {
+        self.next += 1;
+        format!("v{}", self.next)
+    }
+
+    fn native_val(&mut self) -> F {
+        match self.rng.gen_range(0..8) {
+            0 => F::ZERO,
+            1 => F::ONE,
+            2 => -F::ONE,
+            3 => F::from(self.rng.gen_range(0..300u64)),
+            4 => {
+                let k = self.rng.gen_range(1..32usize);
+                f_from_big(&((BigUint::one() << (8 * k)) - BigUint::from(self.rng.gen_range(0..2u32))))
+            }
+            _ => F::random(&mut *self.rng),
+        }
+    }
+
+    fn big_val(&mut self, w: u32) -> BigUint {
+        if w == 0 {
+            return BigUint::zero();
+        }
+        match self.rng.gen_range(0..7) {
+            0 => BigUint::zero(),
+            1 => BigUint::one(),
+            2 => (BigUint::one() << w) - BigUint::one(),
+            3 => BigUint::one() << (w - 1),
+            4 => BigUint::from(self.rng.gen_range(0..1000u32)) % (BigUint::one() << w),
+            _ => self.rng.gen_biguint(w as u64),
+        }
+    }
+
+    fn bytes_val(&mut self, n: usize) -> Vec<u8> {
+        match self.rng.gen_range(0..5) {
+            0 => vec![0; n],
+            1 => vec![0xff; n],
+            _ => (0..n).map(|_| self.rng.gen()).collect(),
+        }
+    }
+
+    fn point_val(&mut self) -> JubjubSubgroup {
+        match self.rng.gen_range(0..5) {
+            0 => JubjubSubgroup::identity(),
+            1 => JubjubSubgroup::generator(),
+            2 => -JubjubSubgroup::generator(),
+            _ => JubjubSubgroup::generator() * JubjubFr::random(&mut *self.rng),
+        }
+    }
+
+    fn scalar_val(&mut self) -> JubjubFr {
+        match self.rng.gen_range(0..6) {
+            0 => JubjubFr::ZERO,
+            1 => JubjubFr::ONE,
+            2 => -JubjubFr::ONE,
+            3 => JubjubFr::from(self.rng.gen_range(0..100u64)),
+            _ => JubjubFr::random(&mut *self.rng),
+        }
+    }
+
+    fn bytes_len(&mut self) -> usize {
+        let small = [0usize, 1, 2, 3, 4, 8, 11, 12, 13, 16, 24, 25, 31, 32];
+        let wide = [33usize, 36, 37, 40, 48, 63, 64, 65, 70];
+        if self.wide && self.rng.gen_bool(0.3) {
+            *wide.choose(self.rng).unwrap()
+        } else {
+            *small.choose(self.rng).unwrap()
+        }
+    }
+
+    fn big_width(&mut self) -> u32 {
+        let small = [1u32, 7, 8, 16, 64, 95, 96, 97, 128];
+        let wide = [191u32, 192, 193, 256, 300, 384, 512];
+        if self.wide && self.rng.gen_bool(0.3) {
+            *wide.choose(self.rng).unwrap()
+        } else {
+            *small.choose(self.rng).unwrap()
+        }
+    }
+
+    fn load(&mut self, t: IrType, n: usize) -> Vec<String> {
+        let names: Vec<String> = (0..n).map(|_| self.fresh()).collect();
+        let twin = n >= 2 && self.rng.gen_bool(0.35);
+        let mut first: Option<IrValue> = None;
+        for name in &names {
+            let v: IrValue = match t {
+                IrType::Bool => self.rng.gen::<bool>().into(),
+                IrType::Bytes(k) => self.bytes_val(k).into(),
+                IrType::Native => self.native_val().into(),
+                IrType::BigUint(w) => self.big_val(w).into(),
+                IrType::JubjubPoint => self.point_val().into(),
+                IrType::JubjubScalar => self.scalar_val().into(),
+            };
+            let v = match (&first, twin) {
+                (Some(f), true) => f.clone(),
+                _ => v,
+            };
+            if first.is_none() {
+                first = Some(v.clone());
+            }
+            self.wit.push((name.clone(), v));
+            let ty = match t {
+                IrType::Bool => Ty::Bool,
+                IrType::Bytes(k) => Ty::Bytes(k),
+                IrType::Native => Ty::Native,
+                IrType::BigUint(_) => Ty::Big,
+                IrType::JubjubPoint => Ty::Point,
+                IrType::JubjubScalar => Ty::Scalar,
+            };
+            self.vars.push((name.clone(), ty));
+        }
+        self.prog.push(Instruction { operation: Operation::Load(t), inputs: vec![], outputs: names.clone() });
+        names
+    }
+
+    fn constant(&mut self, ty: Ty) -> Option<String> {
+        let r = self.rng.gen_range(0..4);
+        Some(match ty {
+            Ty::Bool => ["0", "1"][r % 2].to_string(),
+            Ty::Bytes(n) => {
+                let b = self.bytes_val(n);
+                if n == 1 {
+                    return None; // a single character is parsed as a Bool
+                }
+                format!("{}{}", if r % 2 == 0 { "0x" } else { "" }, hex_bytes(&b))
+            }
+            Ty::Native => ["Native:05", "Native:-0x01", "Native:", "Native:0100000000000000000000000000000000"][r].to_string(),
+            Ty::Big => ["BigUint:0x1234", "BigUint:0", "BigUint:ffffffffffffffffffffffffffffffff", "BigUint:1"][r].to_string(),
+            Ty::Point => ["Jubjub:GENERATOR", "Jubjub:IDENTITY", "Jubjub:GENERATOR", "Jubjub:0xcb550cd538ea0cc1138480408e6eaab9b36c613f0dd3f7784fdb6eea837b13d7"][r].to_string(),
+            Ty::Scalar => ["JubjubScalar:FF", "JubjubScalar:00", "JubjubScalar:", "JubjubScalar:0e7db4ea6533afa906673b0101343b00a6682093ccc81082d0970e5ed6f72cb6"][r].to_string(),
+        })
+    }
+
+    /// A value name of the wanted kind: an existing variable (recent ones preferred), a
+    /// constant, or a freshly loaded variable.
+    fn pick(&mut self, want: impl Fn(Ty) -> bool, default: IrType) -> String {
+        let cands: Vec<(String, Ty)> = self.vars.iter().filter(|(_, t)| want(*t)).cloned().collect();
+        let dty = match default {
+            IrType::Bool => Ty::Bool,
+            IrType::Bytes(k) => Ty::Bytes(k),
+            IrType::Native => Ty::Native,
+            IrType::BigUint(_) => Ty::Big,
+            IrType::JubjubPoint => Ty::Point,
+            IrType::JubjubScalar => Ty::Scalar,
+        };
+        if self.rng.gen_bool(0.12) {
+            if let Some(c) = self.constant(dty) {
+                return c;
+            }
+        }
+        if cands.is_empty() || self.rng.gen_bool(0.1) {
+            return self.load(default, 1)[0].clone();
+        }
+        // prefer recent
+        let n = cands.len();
+        let i = if self.rng.gen_bool(0.6) { n - 1 - self.rng.gen_range(0..n.min(3)) } else { self.rng.gen_range(0..n) };
+        cands[i].0.clone()
+    }
+
+    fn emit(&mut self, op: Operation, ins: Vec<String>, outs: Vec<(String, Ty)>) {
+        self.prog.push(Instruction {
+            operation: op,
+            inputs: ins,
+            outputs: outs.iter().map(|(n, _)| n.clone()).collect(),
+        });
+        self.vars.extend(outs);
+    }
+
+    fn arith_kind(&mut self) -> (Ty, IrType) {
+        match self.rng.gen_range(0..3) {
+            0 => (Ty::Native, IrType::Native),
+            1 => {
+                let w = self.big_width();
+                (Ty::Big, IrType::BigUint(w))
+            }
+            _ => (Ty::Point, IrType::JubjubPoint),
+        }
+    }
+
+    fn step(&mut self) {
+        use Operation::*;
+        let choice = self.rng.gen_range(0..100);
+        match choice {
+            0..=9 => {
+                let t = match self.rng.gen_range(0..6) {
+                    0 => IrType::Bool,
+                    1 => IrType::Bytes(self.bytes_len()),
+                    2 => IrType::Native,
+                    3 => IrType::BigUint(self.big_width()),
+                    4 => IrType::JubjubPoint,
+                    _ => IrType::JubjubScalar,
+                };
+                let n = self.rng.gen_range(1..=3);
+                self.load(t, n);
+            }
+            10..=21 => {
+                let n = self.rng.gen_range(1..=3);
+                let ins: Vec<String> = (0..n).map(|_| self.pick(|_| true, IrType::Native)).collect();
+                self.emit(Publish, ins, vec![]);
+            }
+            22..=33 => {
+                // comparisons: mostly between values of one type
+                let (ty, d) = match self.rng.gen_range(0..5) {
+                    0 => (Ty::Bool, IrType::Bool),
+                    1 => {
+                        let k = self.bytes_len();
+                        (Ty::Bytes(k), IrType::Bytes(k))
+                    }
+                    2 => (Ty::Native, IrType::Native),
+                    3 => (Ty::Big, IrType::BigUint(self.big_width())),
+                    _ => (Ty::Point, IrType::JubjubPoint),
+                };
+                let same = move |t: Ty| match (t, ty) {
+                    (Ty::Bytes(_), Ty::Bytes(_)) => true,
+                    (a, b) => a == b,
+                };
+                let a = self.pick(same, d);
+                let b = if self.rng.gen_bool(0.3) { a.clone() } else { self.pick(same, d) };
+                let op = [AssertEqual, AssertNotEqual, IsEqual, IsEqual][self.rng.gen_range(0..4)];
+                let outs = if op == IsEqual { vec![(self.fresh(), Ty::Bool)] } else { vec![] };
+                self.emit(op, vec![a, b], outs);
+            }
+            34..=48 => {
+                let (ty, d) = self.arith_kind();
+                let a = self.pick(move |t| t == ty, d);
+                let b = self.pick(move |t| t == ty, d);
+                let op = [Add, Sub, Add][self.rng.gen_range(0..3)];
+                let o = self.fresh();
+                self.emit(op, vec![a, b], vec![(o, ty)]);
+            }
+            49..=56 => {
+                let o = self.fresh();
+                match self.rng.gen_range(0..3) {
+                    0 => {
+                        let a = self.pick(|t| t == Ty::Native, IrType::Native);
+                        let b = self.pick(|t| t == Ty::Native, IrType::Native);
+                        self.emit(Mul, vec![a, b], vec![(o, Ty::Native)]);
+                    }
+                    1 => {
+                        let w = self.big_width();
+                        let a = self.pick(|t| t == Ty::Big, IrType::BigUint(w));
+                        let b = self.pick(|t| t == Ty::Big, IrType::BigUint(w));
+                        self.emit(Mul, vec![a, b], vec![(o, Ty::Big)]);
+                    }
+                    _ => {
+                        let s = self.pick(|t| t == Ty::Scalar, IrType::JubjubScalar);
+                        let p = self.pick(|t| t == Ty::Point, IrType::JubjubPoint);
+                        self.emit(Mul, vec![s, p], vec![(o, Ty::Point)]);
+                    }
+                }
+            }
+            57..=60 => {
+                let (ty, d) = if self.rng.gen_bool(0.5) { (Ty::Native, IrType::Native) } else { (Ty::Point, IrType::JubjubPoint) };
+                let a = self.pick(move |t| t == ty, d);
+                let o = self.fresh();
+                self.emit(Neg, vec![a], vec![(o, ty)]);
+            }
+            61..=64 => {
+                let w = self.big_width();
+                let a = self.pick(|t| t == Ty::Big, IrType::BigUint(w));
+                let m = self.pick(|t| t == Ty::Big, IrType::BigUint(w));
+                let n = [0u64, 1, 2, 3, 5, 16, 17][self.rng.gen_range(0..7)];
+                let o = self.fresh();
+                self.emit(ModExp(n), vec![a, m], vec![(o, Ty::Big)]);
+            }
+            65..=69 => {
+                let k = self.rng.gen_range(1..=3);
+                let o = self.fresh();
+                match self.rng.gen_range(0..3) {
+                    0 => {
+                        let v: Vec<String> = (0..2 * k).map(|_| self.pick(|t| t == Ty::Native, IrType::Native)).collect();
+                        self.emit(InnerProduct, v, vec![(o, Ty::Native)]);
+                    }
+                    1 => {
+                        let w = self.big_width();
+                        let v: Vec<String> = (0..2 * k).map(|_| self.pick(|t| t == Ty::Big, IrType::BigUint(w))).collect();
+                        self.emit(InnerProduct, v, vec![(o, Ty::Big)]);
+                    }
+                    _ => {
+                        let mut v: Vec<String> = (0..k).map(|_| self.pick(|t| t == Ty::Scalar, IrType::JubjubScalar)).collect();
+                        v.extend((0..k).map(|_| self.pick(|t| t == Ty::Point, IrType::JubjubPoint)));
+                        self.emit(InnerProduct, v, vec![(o, Ty::Point)]);
+                    }
+                }
+            }
+            70..=72 => {
+                let p = self.pick(|t| t == Ty::Point, IrType::JubjubPoint);
+                let (a, b) = (self.fresh(), self.fresh());
+                self.emit(AffineCoordinates, vec![p], vec![(a, Ty::Native), (b, Ty::Native)]);
+            }
+            73..=82 => {
+                let o = self.fresh();
+                match self.rng.gen_range(0..3) {
+                    0 => {
+                        let a = self.pick(|t| t == Ty::Native, IrType::Native);
+                        let n = if self.rng.gen_bool(0.85) { self.rng.gen_range(0..=32) } else { [33usize, 40][self.rng.gen_range(0..2)] };
+                        self.emit(IntoBytes(n), vec![a], vec![(o, Ty::Bytes(n))]);
+                    }
+                    1 => {
+                        let w = self.big_width();
+                        let a = self.pick(|t| t == Ty::Big, IrType::BigUint(w));
+                        let n = if self.rng.gen_bool(0.5) { (w as usize).div_ceil(8) + self.rng.gen_range(0..3) } else { self.bytes_len() };
+                        self.emit(IntoBytes(n), vec![a], vec![(o, Ty::Bytes(n))]);
+                    }
+                    _ => {
+                        let p = self.pick(|t| t == Ty::Point, IrType::JubjubPoint);
+                        let n = if self.rng.gen_bool(0.9) { 32 } else { 31 };
+                        self.emit(IntoBytes(n), vec![p], vec![(o, Ty::Bytes(n))]);
+                    }
+                }
+            }
+            83..=92 => {
+                let o = self.fresh();
+                let k = self.bytes_len();
+                let cands: Vec<(String, usize)> = self
+                    .vars
+                    .iter()
+                    .filter_map(|(n, t)| if let Ty::Bytes(l) = t { Some((n.clone(), *l)) } else { None })
+                    .collect();
+                let (b, len) = if !cands.is_empty() && self.rng.gen_bool(0.7) {
+                    cands[self.rng.gen_range(0..cands.len())].clone()
+                } else {
+                    (self.load(IrType::Bytes(k), 1)[0].clone(), k)
+                };
+                match self.rng.gen_range(0..5) {
+                    0 => self.emit(FromBytes(IrType::Native), vec![b], vec![(o, Ty::Native)]),
+                    1 => {
+                        let w = (8 * len) as u32 + [0u32, 0, 1, 8, 100][self.rng.gen_range(0..5)];
+                        let w = if self.rng.gen_bool(0.1) { w.saturating_sub(1) } else { w };
+                        self.emit(FromBytes(IrType::BigUint(w)), vec![b], vec![(o, Ty::Big)]);
+                    }
+                    2 => {
+                        // a valid encoding most of the time
+                        let b = if self.rng.gen_bool(0.8) {
+                            let name = self.fresh();
+                            let p = self.point_val();
+                            self.wit.push((name.clone(), p.to_bytes().to_vec().into()));
+                            self.vars.push((name.clone(), Ty::Bytes(32)));
+                            self.prog.push(Instruction { operation: Load(IrType::Bytes(32)), inputs: vec![], outputs: vec![name.clone()] });
+                            name
+                        } else {
+                            b
+                        };
+                        self.emit(FromBytes(IrType::JubjubPoint), vec![b], vec![(o, Ty::Point)]);
+                    }
+                    3 => {
+                        // keep clear of the known N7 class (>= 32 bytes) most of the time
+                        let short = self.rng.gen_range(0..32usize);
+                        let b = if len >= 32 && !self.wide { self.load(IrType::Bytes(short), 1)[0].clone() } else { b };
+                        self.emit(FromBytes(IrType::JubjubScalar), vec![b], vec![(o, Ty::Scalar)]);
+                    }
+                    _ => {
+                        let t = [IrType::Bool, IrType::Bytes(len)][self.rng.gen_range(0..2)];
+                        self.emit(FromBytes(t), vec![b], vec![(o, Ty::Bool)]);
+                    }
+                }
+            }
+            93..=95 => {
+                let n = self.rng.gen_range(1..=3);
+                let ins: Vec<String> = (0..n).map(|_| self.pick(|t| t == Ty::Native, IrType::Native)).collect();
+                let o = self.fresh();
+                self.emit(Poseidon, ins, vec![(o, Ty::Native)]);
+            }
+            _ => {
+                let k = self.bytes_len();
+                let b = self.pick(|t| matches!(t, Ty::Bytes(_)), IrType::Bytes(k));
+                let o = self.fresh();
+                if self.rng.gen_bool(0.5) {
+                    self.emit(Sha256, vec![b], vec![(o, Ty::Bytes(32))]);
+                } else {
+                    self.emit(Sha512, vec![b], vec![(o, Ty::Bytes(64))]);
+                }
+            }
+        }
+    }
+}
+
+/// A random straight-line program of roughly `len` instructions with its witness.
+pub fn random_case(rng: &mut ChaCha8Rng, len: usize, wide: bool) -> Case {
+    let mut g = G { rng, vars: vec![], prog: vec![], wit: vec![], next: 0, wide };
+    while g.prog.len() < len {
+        g.step();
+    }
+    Case { prog: g.prog, wit: g.wit }
+}
+
+/// One deliberate defect: ill-typed input, wrong arity, duplicate / missing name, malformed
+/// constant, missing / ill-typed / out-of-range witness.
+pub fn mutate(rng: &mut ChaCha8Rng, c: &Case) -> (Case, &'static str) {
+    let mut c = c.clone();
+    let n = c.prog.len();
+    let k = rng.gen_range(0..n);
+    let all_names: Vec<String> = c.prog.iter().flat_map(|i| i.outputs.clone()).collect();
+    let kind = rng.gen_range(0..9);
+    let tag = match kind {
+        0 => {
+            c.prog[k].inputs.push("extra".into());
+            "arity+in"
+        }
+        1 => {
+            if c.prog[k].inputs.pop().is_none() {
+                c.prog[k].outputs.pop();
+            }
+            "arity-"
+        }
+        2 => {
+            c.prog[k].outputs.push("extra_out".into());
+            "arity+out"
+        }
+        3 => {
+            // duplicate output name
+            if let (Some(o), Some(e)) = (c.prog[k].outputs.first().cloned(), all_names.first().cloned()) {
+                if o != e {
+                    c.prog[k].outputs[0] = e;
+                } else if let Some(l) = all_names.last() {
+                    c.prog[k].outputs[0] = l.clone();
+                }
+            }
+            "dup"
+        }
+        4 => {
+            if let Some(i) = c.prog[k].inputs.first_mut() {
+                *i = "zz9".into();
+            }
+            "missing"
+        }
+        5 => {
+            // some other variable (likely of another type)
+            if !all_names.is_empty() {
+                let other = all_names[rng.gen_range(0..all_names.len())].clone();
+                if let Some(i) = c.prog[k].inputs.last_mut() {
+                    *i = other;
+                }
+            }
+            "retarget"
+        }
+        6 => {
+            let bad = ["Native:zz", "a:b:c", "0xABC", "Jubjub:1234", "2", "BigUint:", "Foo:12",
+                "Jubjub:00000000fffffffffe5bfeff02a4bd5305d8a10908d83933487d9d2953a7ed73",
+                "JubjubScalar:0e7db4ea6533afa906673b0101343b00a6682093ccc81082d0970e5ed6f72cb7",
+                "Native:73eda753299d7d483339d80809a1d80553bda402fffe5bfeffffffff00000001",
+                "Native:000000000000000000000000000000000000000000000000000000000000000001"];
+            if let Some(i) = c.prog[k].inputs.first_mut() {
+                *i = bad[rng.gen_range(0..bad.len())].into();
+            }
+            "bad-const"
+        }
+        7 => {
+            if !c.wit.is_empty() {
+                let j = rng.gen_range(0..c.wit.len());
+                c.wit.remove(j);
+            }
+            "wit-missing"
+        }
+        _ => {
+            if !c.wit.is_empty() {
+                let j = rng.gen_range(0..c.wit.len());
+                c.wit[j].1 = match &c.wit[j].1 {
+                    IrValue::Bool(_) => IrValue::Native(F::ONE),
+                    IrValue::Bytes(b) => IrValue::Bytes([b.clone(), vec![7]].concat()),
+                    IrValue::Native(_) => IrValue::Bool(true),
+                    IrValue::BigUint(_) => IrValue::BigUint(BigUint::one() << 600),
+                    IrValue::JubjubPoint(_) => IrValue::JubjubScalar(JubjubFr::ONE),
+                    IrValue::JubjubScalar(_) => IrValue::BigUint(BigUint::one()),
+                };
+            }
+            "wit-type"
+        }
+    };
+    (c, tag)
+}
+
+pub fn generated(ctx: &mut Ctx) {
+    let (n_valid, n_mut, n_nomock) = if ctx.quick() {
+        (1200, 500, 3000)
+    } else if ctx.thorough() {
+        (15000, 6000, 40000)
+    } else {
+        (4000, 2000, 10000)
+    };
+    let wide = !ctx.quick();
+    let mut rng = ctx.rng("c18-programs");
+    let mut cases = vec![];
+    let mut lens = vec![];
+    for i in 0..n_valid {
+        let len = 1 + (i % 25);
+        lens.push(len);
+        cases.push(random_case(&mut rng, len, wide && i % 3 == 0));
+    }
+    for l in &lens {
+        ctx.count(&format!("len:{:02}", (l / 5) * 5));
+    }
+    crate::run_batch(ctx, "random", cases.clone(), true);
+
+    let mut rng = ctx.rng("c18-mutants");
+    let mut muts = vec![];
+    for i in 0..n_mut {
+        let base = &cases[i % cases.len()];
+        let (m, tag) = mutate(&mut rng, base);
+        ctx.count(&format!("mutant:{tag}"));
+        muts.push(m);
+    }
+    crate::run_batch(ctx, "mutant", muts, true);
+
+    // a wider stream without the (expensive) mock checker: loader, both interpreters'
+    // verdicts, shapes, public-input encoding, serialisation
+    let mut rng = ctx.rng("c18-nomock");
+    let mut more = vec![];
+    for i in 0..n_nomock {
+        let len = 1 + (i % 25);
+        let c = random_case(&mut rng, len, i % 2 == 0);
+        if i % 3 == 0 {
+            more.push(mutate(&mut rng, &c).0);
+        } else {
+            more.push(c);
+        }
+    }
+    crate::run_batch(ctx, "random-nomock", more, false);
+    let _ = (q_big(), r_big(), fr_from_big(&BigUint::one()));
+}
